@@ -8,6 +8,7 @@ from props.c10 import edit_prefix
 
 class Check(PropCheck):
     pid = 'C09'
+    pure_predicate = True
     tol = None
     rule = ('every ordered pair of slots (leaves, internal nodes, ancestor/descendant pairs, identical, removed, out of range) of '
             'exhaustive small shapes and random trees with every mixture of present/absent dyadic lengths (bit-exact comparison), '
